@@ -248,7 +248,16 @@ def run(ctx, build):
     singles = [(c,) for c in cs]
     pairs = list(itertools.combinations(cs, 2))
     rng.shuffle(pairs)
-    plan = [()] + singles + pairs[:(160 if ctx.quick() else 4000)]
+    # designed pairs (independent of the seed): the same kind of damage to BOTH descriptive attributes of one ancillary dataset,
+    # so that each dataset stays self-consistent while Indices and Values disagree
+    byname = dict(cs)
+    designed = []
+    for name in ANC:
+        short = ''.join(w[0] for w in name.split('_'))
+        for kind in ('truncated', 'extended', 'renamed', 'missing', 'numeric'):
+            a, b = '%s_labels_%s' % (short, kind), '%s_units_%s' % (short, kind)
+            designed.append(((a, byname[a]), (b, byname[b])))
+    plan = [()] + singles + designed + pairs[:(160 if ctx.quick() else 4000)]
     cases, meta = [], []
     hist = {'objects': 0, 'valid': 0, 'single_corruptions': 0, 'pairs': 0, 'raised': {}, 'trees': 0, 'unapplicable_combinations': 0}
     distinct = set()
